@@ -164,6 +164,10 @@ pub enum Decision {
     Container { kind: char, k0: u64, k1: u64, tweak: Tweak },
     /// benign stream behaviour of one opened file: 0 = whole reads, no EINTR
     Open { path: String, io_seed: u64 },
+    /// a `thread::spawn`: run the body at spawn (eager) or defer it to the first join
+    Spawn { eager: bool },
+    /// order in which deferred thread bodies run at a join
+    TaskOrder { order: Vec<u32> },
 }
 
 impl Decision {
@@ -172,6 +176,8 @@ impl Decision {
             Decision::ReadDir { order, .. } => order.iter().enumerate().all(|(i, &x)| i as u32 == x),
             Decision::Container { k0, k1, tweak, .. } => *k0 == 0 && *k1 == 0 && *tweak == Tweak::None,
             Decision::Open { io_seed, .. } => *io_seed == 0,
+            Decision::Spawn { eager } => *eager,
+            Decision::TaskOrder { order } => order.iter().enumerate().all(|(i, &x)| i as u32 == x),
         }
     }
     pub fn defaulted(&self) -> Decision {
@@ -189,6 +195,10 @@ impl Decision {
             Decision::Open { path, .. } => Decision::Open {
                 path: path.clone(),
                 io_seed: 0,
+            },
+            Decision::Spawn { .. } => Decision::Spawn { eager: true },
+            Decision::TaskOrder { order } => Decision::TaskOrder {
+                order: (0..order.len() as u32).collect(),
             },
         }
     }
@@ -399,6 +409,8 @@ pub struct RunStats {
     pub bytes_read: u64,
     pub fs_escapes: u64,
     pub prints: u64,
+    pub thread_spawns: u64,
+    pub thread_spawns_deferred: u64,
 }
 
 impl RunStats {
@@ -416,6 +428,8 @@ impl RunStats {
         self.bytes_read += o.bytes_read;
         self.fs_escapes += o.fs_escapes;
         self.prints += o.prints;
+        self.thread_spawns += o.thread_spawns;
+        self.thread_spawns_deferred += o.thread_spawns_deferred;
     }
 }
 
@@ -603,6 +617,63 @@ impl World {
         self.event(if kind == 'M' { "new_map" } else { "new_set" }, k0 ^ t, k1);
         self.trace.push(Decision::Container { kind, k0, k1, tweak });
         (id, k0, k1, tweak)
+    }
+
+    pub fn decide_spawn(&mut self) -> bool {
+        let eager = match &mut self.mode {
+            Mode::Random { rng, profile } => profile.cover_iter.is_some() || rng.chance(1, 2),
+            Mode::Replay { q } => match q.front() {
+                Some(Decision::Spawn { eager }) => {
+                    let e = *eager;
+                    q.pop_front();
+                    e
+                }
+                _ => {
+                    self.diverged = true;
+                    true
+                }
+            },
+        };
+        self.stats.thread_spawns += 1;
+        if !eager {
+            self.stats.thread_spawns_deferred += 1;
+        }
+        self.event("spawn", eager as u64, 0);
+        self.trace.push(Decision::Spawn { eager });
+        eager
+    }
+
+    pub fn note_scoped_spawn(&mut self) {
+        self.stats.thread_spawns += 1;
+        self.event("scoped_spawn", 0, 0);
+    }
+
+    pub fn decide_task_order(&mut self, n: usize) -> Vec<u32> {
+        let order: Vec<u32> = match &mut self.mode {
+            Mode::Random { rng, .. } => {
+                let mut v: Vec<u32> = (0..n as u32).collect();
+                rng.shuffle(&mut v);
+                v
+            }
+            Mode::Replay { q } => match q.front() {
+                Some(Decision::TaskOrder { order }) if order.len() == n => {
+                    let o = order.clone();
+                    q.pop_front();
+                    o
+                }
+                _ => {
+                    self.diverged = true;
+                    (0..n as u32).collect()
+                }
+            },
+        };
+        let mut d = Fnv::default();
+        for &x in &order {
+            d.u64(x as u64);
+        }
+        self.event("task_order", n as u64, d.0);
+        self.trace.push(Decision::TaskOrder { order: order.clone() });
+        order
     }
 
     pub fn decide_open(&mut self, path: &str) -> u64 {
